@@ -65,6 +65,9 @@ type c05Duty struct {
 	Submit        string        `json:"submit,omitempty"`     // "" ok | error
 	// CancelAfter: the context Propose runs under is cancelled this long after the slot start (0: never), as when vouch shuts down.
 	CancelAfter time.Duration `json:"cancel_after,omitempty"`
+	// PreparedForOther: before this duty is prepared, its slot was prepared for the plan's other validator
+	// (the proposer of the slot changed with a reorg).
+	PreparedForOther bool `json:"prepared_for_other,omitempty"`
 }
 
 type c05Plan struct {
@@ -171,6 +174,13 @@ func c05GenPlan(p *simrt.Tape, probe bool) *c05Plan {
 			d.Submit = "error"
 		}
 		pl.Duties = append(pl.Duties, d)
+	}
+	if nd == 2 && !probe && p.Pct(40) {
+		j := p.Pick(2)
+		// (same epoch only: the other validator's reveal request for this slot's epoch is then the one its own duty makes)
+		if pl.Duties[1-j].Prepare == "" && pl.Duties[0].Slot/8 == pl.Duties[1].Slot/8 {
+			pl.Duties[j].PreparedForOther = true
+		}
 	}
 	return pl
 }
@@ -626,6 +636,11 @@ func c05Exec(plan any, sched *simrt.Tape) *sim.Outcome {
 			d, dr := &pl.Duties[j], h.duties[j]
 			simrt.Go(fmt.Sprintf("duty%d", j), func() {
 				simrt.Sleep(ctx, time.Second+time.Duration(j)*10*time.Millisecond, "c05/before-prepare")
+				if d.PreparedForOther {
+					o := &pl.Duties[1-j]
+					simrt.Probe("slot-prepared-for-another-validator-first")
+					_ = svc.Prepare(ctx, beaconblockproposer.NewDuty(phase0.Slot(d.Slot), phase0.ValidatorIndex(o.Index)))
+				}
 				duty := beaconblockproposer.NewDuty(phase0.Slot(d.Slot), phase0.ValidatorIndex(d.Index))
 				err := svc.Prepare(ctx, duty)
 				simrt.Crit(func() { dr.prepared, dr.prepareErr = err == nil, err })
